@@ -9,7 +9,7 @@ VIEW view
 CONSTRAINT Bounded
 INVARIANT MaskConsistent
 INVARIANT NoResidue
-INVARIANT DetypeIsView
+PROPERTY DetypeIsView
 PROPERTY ThreadLocal
 PROPERTY ExitRestores
 CHECK_DEADLOCK FALSE
